@@ -10,36 +10,80 @@ theorem authorize_iff (e : Env) (ch : Channel) (perm : UInt8) (k : Key) :
       ch.ctype ≠ chInvalid ∧ e.banned.contains ch.key = false ∧ e.decrypt ch.key = some k ∧
       k.isExpired e.now = false ∧ e.contractOk k = true ∧ k.hasPermission perm = true ∧
       k.validateChannel ch = true := by
-  sorry
+  unfold authorize
+  generalize e.banned.contains ch.key = b
+  by_cases h1 : ch.ctype = chInvalid
+  · simp [h1]
+  · cases b with
+    | true => simp [h1]
+    | false =>
+      cases hd : e.decrypt ch.key with
+      | none => simp [h1]
+      | some k' =>
+        dsimp only
+        by_cases hk : k' = k
+        · subst hk
+          generalize Key.isExpired k' e.now = b1
+          generalize e.contractOk k' = b2
+          generalize Key.hasPermission k' perm = b3
+          generalize Key.validateChannel k' ch = b4
+          cases b1 <;> cases b2 <;> cases b3 <;> cases b4 <;> simp [h1]
+        · have hk' : ¬ (some k' = some k) := by simpa using hk
+          simp only [hk', false_and, and_false, iff_false]
+          split <;> (try split) <;> simp [hk]
 
-/-- A key of one contract is never accepted for another: any mismatch of contract id,
-signature or master id refuses the request, whatever else holds. -/
 theorem contract_isolation (e : Env) (ch : Channel) (perm : UInt8) (k : Key)
     (hd : e.decrypt ch.key = some k)
     (hm : k.contract ≠ e.contractId ∨ k.signature ≠ e.signature ∨ k.master ≠ e.masterId) :
     authorize e ch perm = none := by
-  sorry
+  cases h : authorize e ch perm with
+  | none => rfl
+  | some k' =>
+    rw [authorize_iff] at h
+    obtain ⟨_, _, hd', _, hc, _⟩ := h
+    rw [hd] at hd'; cases hd'
+    unfold Env.contractOk at hc
+    simp at hc
+    rcases hm with hm | hm | hm <;> simp_all
 
 theorem banned_refused (e : Env) (ch : Channel) (perm : UInt8) (h : e.banned.contains ch.key = true) :
     authorize e ch perm = none := by
-  sorry
+  cases h' : authorize e ch perm with
+  | none => rfl
+  | some k' =>
+    rw [authorize_iff] at h'
+    simp_all
 
 theorem expired_refused (e : Env) (ch : Channel) (perm : UInt8) (k : Key)
     (hd : e.decrypt ch.key = some k) (h : k.isExpired e.now = true) : authorize e ch perm = none := by
-  sorry
+  cases h' : authorize e ch perm with
+  | none => rfl
+  | some k' =>
+    rw [authorize_iff] at h'
+    obtain ⟨_, _, hd', he, _⟩ := h'
+    rw [hd] at hd'; cases hd'; simp_all
 
 theorem permission_required (e : Env) (ch : Channel) (perm : UInt8) (k : Key)
     (hd : e.decrypt ch.key = some k) (h : k.hasPermission perm = false) : authorize e ch perm = none := by
-  sorry
+  cases h' : authorize e ch perm with
+  | none => rfl
+  | some k' =>
+    rw [authorize_iff] at h'
+    obtain ⟨_, _, hd', _, _, hp, _⟩ := h'
+    rw [hd] at hd'; cases hd'; simp_all
 
 theorem undecryptable_refused (e : Env) (ch : Channel) (perm : UInt8) (h : e.decrypt ch.key = none) :
     authorize e ch perm = none := by
-  sorry
+  cases h' : authorize e ch perm with
+  | none => rfl
+  | some k' =>
+    rw [authorize_iff] at h'
+    simp_all
 
-/-- a permission check for a mask succeeds iff every bit of the mask is in the key -/
 theorem hasPermission_iff (k : Key) (flag : UInt8) :
     k.hasPermission flag = true ↔ k.permissions &&& flag = flag := by
-  sorry
+  unfold Key.hasPermission
+  simp
 
 /-! ### targets -/
 
@@ -57,32 +101,650 @@ def coversParts (tp : List Bytes) (tw : Bool) (rp : List Bytes) (rw : Bool) : Bo
   if tw then rp.length ≥ tp.length && levelsOk tp rp
   else !rw && rp.length == tp.length && levelsOk tp rp
 
+/-! ### strings -/
+
+theorem splitSlashAux_append (p rest acc : Bytes) (hp : sep ∉ p) :
+    splitSlashAux (p ++ rest) acc = splitSlashAux rest (acc ++ p) := by
+  induction p generalizing acc with
+  | nil => simp
+  | cons c p ih =>
+    have hc : (c == sep) = false := by
+      simp only [beq_eq_false_iff_ne, ne_eq]; intro h; exact hp (by simp [h])
+    have hp' : sep ∉ p := fun h => hp (List.mem_cons_of_mem _ h)
+    simp only [List.cons_append, splitSlashAux, hc, Bool.false_eq_true, ↓reduceIte]
+    rw [ih _ hp']; simp
+
+theorem splitSlashAux_joinSlash (p : Bytes) (ps : List Bytes) (acc : Bytes) (hwf : ∀ q ∈ p :: ps, sep ∉ q) :
+    splitSlashAux (joinSlash (p :: ps)) acc = (acc ++ p) :: ps := by
+  induction ps generalizing p acc with
+  | nil =>
+    have := splitSlashAux_append p [] acc (hwf p (by simp))
+    simp only [List.append_nil] at this
+    simp [joinSlash, this, splitSlashAux]
+  | cons q ps ih =>
+    simp only [joinSlash, List.append_assoc]
+    rw [splitSlashAux_append _ _ _ (hwf p (by simp))]
+    simp only [List.singleton_append, splitSlashAux, beq_self_eq_true, if_true]
+    rw [ih q [] (fun r hr => hwf r (List.mem_cons_of_mem _ hr))]
+    simp
+
+theorem splitSlash_joinSlash (ps : List Bytes) (hne : ps ≠ []) (hwf : ∀ p ∈ ps, sep ∉ p) :
+    splitSlash (joinSlash ps) = ps := by
+  cases ps with
+  | nil => exact absurd rfl hne
+  | cons p ps => unfold splitSlash; rw [splitSlashAux_joinSlash p ps [] hwf]; simp
+
+theorem joinSlash_injective (a b : List Bytes) (ha : ∀ p ∈ a, sep ∉ p) (hb : ∀ p ∈ b, sep ∉ p)
+    (hna : a ≠ []) (hnb : b ≠ []) (h : joinSlash a = joinSlash b) : a = b := by
+  rw [← splitSlash_joinSlash a hna ha, ← splitSlash_joinSlash b hnb hb, h]
+
+/-- the joined string of non-empty '/'-free levels ends in a character other than '/' -/
+theorem joinSlash_getLast (ps : List Bytes) (hne : ps ≠ []) (hwf : ∀ p ∈ ps, p ≠ [] ∧ sep ∉ p) :
+    ∃ l c, joinSlash ps = l ++ [c] ∧ c ≠ sep := by
+  induction ps with
+  | nil => exact absurd rfl hne
+  | cons p ps ih =>
+    cases ps with
+    | nil =>
+      obtain ⟨hp1, hp2⟩ := hwf p (by simp)
+      refine ⟨p.dropLast, p.getLast hp1, ?_, ?_⟩
+      · simp [joinSlash, List.dropLast_concat_getLast]
+      · intro h; exact hp2 (h ▸ List.getLast_mem hp1)
+    | cons q ps =>
+      obtain ⟨l, c, hl, hc⟩ := ih (by simp) (fun r hr => hwf r (List.mem_cons_of_mem _ hr))
+      refine ⟨p ++ [sep] ++ l, c, ?_, hc⟩
+      simp only [joinSlash] at hl ⊢
+      rw [hl]; simp
+
+theorem trimRightSlash_join (ps : List Bytes) (hne : ps ≠ []) (hwf : ∀ p ∈ ps, p ≠ [] ∧ sep ∉ p) :
+    trimRightSlash (joinSlash ps ++ [sep]) = joinSlash ps := by
+  obtain ⟨l, c, hl, hc⟩ := joinSlash_getLast ps hne hwf
+  have hc' : (c == sep) = false := by simpa using hc
+  rw [hl]; unfold trimRightSlash
+  simp [List.dropWhile, hc']
+
+/-- The key "#/" (hash of the empty string, zero bit path) covers every channel. -/
+theorem validate_hash_all (k : Key) (hp : k.targetPath = 0) (ht : k.target = 1325880984) (ch : Channel)
+    (hc : ch.channel ≠ []) : k.validateChannel ch = true := by
+  unfold Key.validateChannel
+  simp [hp, ht, hc]
+
+/-! ### bit paths -/
+
+/-- a level is a literal: neither "+" nor "#" -/
+def lit (p : Bytes) : Bool := p != plus && p != hashSym
+
+theorem bitSet_eq_testBit (x i : Nat) : bitSet x i = x.testBit i := by
+  unfold bitSet
+  rw [Nat.testBit_eq_decide_div_mod_eq]
+  cases h : decide (x / 2 ^ i % 2 = 1) <;> simp_all
+
+theorem lit_plus : lit plus = false := by decide
+
+theorem bitPathOf_spec (ps : List Bytes) (s : Nat) (h : s + ps.length ≤ 23) :
+    bitPathOf ps s < 2 ^ (23 - s) ∧
+    ∀ j, s ≤ j → j ≤ 22 → (bitPathOf ps s).testBit (22 - j) = lit (ps.getD (j - s) plus) := by
+  induction ps generalizing s with
+  | nil =>
+    refine ⟨by simp only [bitPathOf]; exact Nat.two_pow_pos _, fun j _ _ => ?_⟩
+    simp [bitPathOf, lit_plus]
+  | cons p ps ih =>
+    simp only [List.length_cons] at h
+    have hs : s ≤ 22 := by omega
+    obtain ⟨hlt, hbits⟩ := ih (s + 1) (by omega)
+    have e1 : 23 - (s + 1) = 22 - s := by omega
+    have e2 : 23 - s = (22 - s) + 1 := by omega
+    rw [e1] at hlt
+    have hcond : (p != plus && p != hashSym && decide (s ≤ 22)) = lit p := by simp [lit, hs]
+    unfold bitPathOf
+    rw [hcond]
+    constructor
+    · rw [e2, Nat.pow_succ]
+      split <;> omega
+    · intro j hj1 hj2
+      by_cases hjs : j = s
+      · subst hjs
+        simp only [Nat.sub_self, List.getD_cons_zero]
+        cases hl : lit p
+        · simp [Nat.testBit_lt_two_pow hlt]
+        · simp [Nat.testBit_two_pow_add_eq, Nat.testBit_lt_two_pow hlt]
+      · have hjs' : s + 1 ≤ j := by omega
+        have e3 : j - s = (j - (s + 1)) + 1 := by omega
+        rw [e3, List.getD_cons_succ, ← hbits j hjs' hj2]
+        cases hl : lit p
+        · simp
+        · simp only [if_true]
+          exact Nat.testBit_two_pow_add_gt (by omega) _
+
+
+/-- the code's test "level `idx` of the target is a literal" -/
+def litAt (P idx : Nat) : Bool := decide (idx ≤ 22) && bitSet P (22 - idx)
+
+theorem pathOf_bit23 (tp : List Bytes) (tw : Bool) (hlen : tp.length ≤ 23) :
+    bitSet (pathOf tp tw) 23 = !tw := by
+  obtain ⟨hlt, -⟩ := bitPathOf_spec tp 0 (by omega)
+  rw [bitSet_eq_testBit]; unfold pathOf
+  cases tw
+  · simp only [Bool.false_eq_true, if_false, Bool.not_false]
+    rw [Nat.testBit_two_pow_add_eq, Nat.testBit_lt_two_pow hlt]; rfl
+  · simp only [if_true, Nat.zero_add, Bool.not_true]
+    exact Nat.testBit_lt_two_pow hlt
+
+theorem pathOf_litAt (tp : List Bytes) (tw : Bool) (hlen : tp.length ≤ 23) (idx : Nat) :
+    litAt (pathOf tp tw) idx = lit (tp.getD idx plus) := by
+  obtain ⟨hlt, hbits⟩ := bitPathOf_spec tp 0 (by omega)
+  unfold litAt
+  by_cases h : idx ≤ 22
+  · have := hbits idx (by omega) h
+    simp only [Nat.sub_zero] at this
+    rw [bitSet_eq_testBit]; unfold pathOf
+    simp only [h, decide_true, Bool.true_and]
+    cases tw
+    · simp only [Bool.false_eq_true, if_false]
+      rw [Nat.testBit_two_pow_add_gt (by omega)]; exact this
+    · simpa using this
+  · have : tp.getD idx plus = plus := by
+      rw [List.getD_eq_getElem?_getD, List.getElem?_eq_none (by omega)]; rfl
+    simp only [h, decide_false, Bool.false_and]
+    rw [this, lit_plus]
+
+theorem maxDepthOf_zero (P n : Nat) (h : ∀ j, j < n → bitSet P (22 - j) = false) : maxDepthOf P n = 0 := by
+  induction n with
+  | zero => rfl
+  | succ n ih =>
+    unfold maxDepthOf
+    simp only [h n (by omega), Bool.false_eq_true, if_false]
+    exact ih (fun j hj => h j (by omega))
+
+theorem maxDepthOf_last (P L n : Nat) (h1 : 1 ≤ L) (h2 : L ≤ n) (h3 : n ≤ 23)
+    (hb : bitSet P (22 - (L - 1)) = true) (hz : ∀ j, L ≤ j → j < n → bitSet P (22 - j) = false) :
+    maxDepthOf P n = L := by
+  induction n with
+  | zero => omega
+  | succ n ih =>
+    unfold maxDepthOf
+    by_cases hL : L = n + 1
+    · subst hL
+      simp only [Nat.add_sub_cancel] at hb
+      simp only [hb, if_true]; omega
+    · simp only [hz n (by omega) (by omega), Bool.false_eq_true, if_false]
+      exact ih (by omega) (by omega) (fun j hj1 hj2 => hz j hj1 (by omega))
+
+/-! ### masking -/
+
+theorem maskParts_cons (P : Nat) (r : Bytes) (rs : List Bytes) (idx : Nat) :
+    maskParts P (r :: rs) idx =
+      if litAt P idx then (if r == plus then none else (maskParts P rs (idx + 1)).map (r :: ·))
+      else (maskParts P rs (idx + 1)).map (plus :: ·) := rfl
+
+theorem lit_false_eq_plus (t : Bytes) (h : lit t = false) (hh : t ≠ hashSym) : t = plus := by
+  unfold lit at h
+  simp only [Bool.and_eq_false_iff, bne_eq_false_iff_eq] at h
+  rcases h with h | h
+  · exact h
+  · exact absurd h hh
+
+theorem lit_true_ne_plus (t : Bytes) (h : lit t = true) : t ≠ plus := by
+  unfold lit at h
+  simp only [Bool.and_eq_true, bne_iff_ne, ne_eq] at h
+  exact h.1
+
+theorem mask_spec (P : Nat) (rp : List Bytes) : ∀ (ts : List Bytes) (idx : Nat),
+    (∀ j, litAt P (idx + j) = lit (ts.getD j plus)) → hashSym ∉ ts →
+    (maskParts P rp idx = none → levelsOk ts rp = false) ∧
+    (∀ m, maskParts P rp idx = some m → m.length = rp.length ∧ (∀ p ∈ m, p = plus ∨ p ∈ rp) ∧
+      (ts.length ≤ rp.length → (m.take ts.length = ts ↔ levelsOk ts rp = true))) := by
+  induction rp with
+  | nil =>
+    intro ts idx _ _
+    refine ⟨by simp [maskParts], ?_⟩
+    intro m hm
+    simp only [maskParts, Option.some.injEq] at hm
+    subst hm
+    refine ⟨rfl, by simp, ?_⟩
+    intro hl
+    have : ts = [] := by simpa using hl
+    subst this; simp [levelsOk]
+  | cons r rs ih =>
+    intro ts idx hlit hnh
+    rw [maskParts_cons]
+    cases ts with
+    | nil =>
+      have h0 : litAt P idx = false := by simpa [lit_plus] using hlit 0
+      obtain ⟨ih1, ih2⟩ := ih [] (idx + 1) (fun j => by
+        have := hlit (j + 1); simp only [List.getD_nil] at this ⊢
+        rw [← this]; congr 1; omega) (by simp)
+      simp only [h0, Bool.false_eq_true, if_false]
+      cases hm' : maskParts P rs (idx + 1) with
+      | none => have := ih1 hm'; simp [levelsOk] at this
+      | some m' =>
+        obtain ⟨hl, hmem, _⟩ := ih2 m' hm'
+        refine ⟨by simp, ?_⟩
+        intro m hm
+        simp only [Option.map_some, Option.some.injEq] at hm
+        subst hm
+        refine ⟨by simp [hl], ?_, by simp [levelsOk]⟩
+        intro p hp
+        rcases List.mem_cons.1 hp with hp | hp
+        · exact Or.inl hp
+        · rcases hmem p hp with h | h
+          · exact Or.inl h
+          · exact Or.inr (List.mem_cons_of_mem _ h)
+    | cons t ts' =>
+      have h0 : litAt P idx = lit t := by simpa using hlit 0
+      have hnh' : hashSym ∉ ts' := fun h => hnh (List.mem_cons_of_mem _ h)
+      have hth : t ≠ hashSym := fun h => hnh (by simp [h])
+      obtain ⟨ih1, ih2⟩ := ih ts' (idx + 1) (fun j => by
+        have := hlit (j + 1); simp only [List.getD_cons_succ] at this
+        rw [← this]; congr 1; omega) hnh'
+      rw [h0]
+      cases hlt : lit t with
+      | true =>
+        have htp : t ≠ plus := lit_true_ne_plus t hlt
+        simp only [if_true]
+        by_cases hr : r = plus
+        · subst hr
+          simp only [beq_self_eq_true, if_true]
+          refine ⟨fun _ => ?_, by simp⟩
+          simp [levelsOk, levelOk, htp]
+        · have hr' : (r == plus) = false := by simpa using hr
+          simp only [hr', Bool.false_eq_true, if_false]
+          cases hm' : maskParts P rs (idx + 1) with
+          | none =>
+            refine ⟨fun _ => ?_, by simp⟩
+            simp [levelsOk, ih1 hm']
+          | some m' =>
+            obtain ⟨hl, hmem, htake⟩ := ih2 m' hm'
+            refine ⟨by simp, ?_⟩
+            intro m hm
+            simp only [Option.map_some, Option.some.injEq] at hm
+            subst hm
+            refine ⟨by simp [hl], ?_, ?_⟩
+            · intro p hp
+              rcases List.mem_cons.1 hp with hp | hp
+              · exact Or.inr (by simp [hp])
+              · rcases hmem p hp with h | h
+                · exact Or.inl h
+                · exact Or.inr (List.mem_cons_of_mem _ h)
+            · intro hlen
+              simp only [List.length_cons, Nat.add_le_add_iff_right] at hlen
+              simp only [List.length_cons, List.take_succ_cons, List.cons.injEq, levelsOk,
+                Bool.and_eq_true]
+              rw [htake hlen]
+              have : levelOk t r = true ↔ r = t := by
+                simp only [levelOk, Bool.or_eq_true, beq_iff_eq, Bool.and_eq_true, bne_iff_ne, ne_eq]
+                constructor
+                · rintro (h | ⟨h, _⟩)
+                  · exact absurd h htp
+                  · exact h.symm
+                · intro h; exact Or.inr ⟨h.symm, hr⟩
+              rw [this]
+      | false =>
+        have htp : t = plus := lit_false_eq_plus t hlt hth
+        subst htp
+        simp only [Bool.false_eq_true, if_false]
+        cases hm' : maskParts P rs (idx + 1) with
+        | none =>
+          refine ⟨fun _ => ?_, by simp⟩
+          simp [levelsOk, ih1 hm']
+        | some m' =>
+          obtain ⟨hl, hmem, htake⟩ := ih2 m' hm'
+          refine ⟨by simp, ?_⟩
+          intro m hm
+          simp only [Option.map_some, Option.some.injEq] at hm
+          subst hm
+          refine ⟨by simp [hl], ?_, ?_⟩
+          · intro p hp
+            rcases List.mem_cons.1 hp with hp | hp
+            · exact Or.inl hp
+            · rcases hmem p hp with h | h
+              · exact Or.inl h
+              · exact Or.inr (List.mem_cons_of_mem _ h)
+          · intro hlen
+            simp only [List.length_cons, Nat.add_le_add_iff_right] at hlen
+            simp only [List.length_cons, List.take_succ_cons, List.cons.injEq, levelsOk,
+              Bool.and_eq_true, true_and]
+            rw [htake hlen]
+            simp [levelOk]
+
+/-- with no literal position at or after `idx`, masking yields "+" everywhere -/
+theorem mask_allplus (P : Nat) (rp : List Bytes) : ∀ idx, (∀ j, litAt P (idx + j) = false) →
+    maskParts P rp idx = some (List.replicate rp.length plus) := by
+  induction rp with
+  | nil => intro _ _; rfl
+  | cons r rs ih =>
+    intro idx h
+    rw [maskParts_cons]
+    have h0 : litAt P idx = false := by simpa using h 0
+    rw [h0, ih (idx + 1) (fun j => by rw [← h (j + 1)]; congr 1; omega)]
+    simp [List.replicate_succ]
+
+theorem levelsOk_allplus (ts rs : List Bytes) (h : ∀ t ∈ ts, t = plus) (hl : ts.length ≤ rs.length) :
+    levelsOk ts rs = true := by
+  induction ts generalizing rs with
+  | nil => simp [levelsOk]
+  | cons t ts ih =>
+    cases rs with
+    | nil => simp at hl
+    | cons r rs =>
+      simp only [levelsOk, Bool.and_eq_true]
+      refine ⟨?_, ih rs (fun t' ht' => h t' (List.mem_cons_of_mem _ ht')) (by simpa using hl)⟩
+      simp [levelOk, h t (by simp)]
+
+theorem levelsOk_length (ts rs : List Bytes) (h : levelsOk ts rs = true) : ts.length ≤ rs.length := by
+  induction ts generalizing rs with
+  | nil => simp
+  | cons t ts ih =>
+    cases rs with
+    | nil => simp [levelsOk] at h
+    | cons r rs =>
+      simp only [levelsOk, Bool.and_eq_true] at h
+      simpa using ih rs h.2
+
+/-! ### ValidateChannel -/
+
+theorem hashSym_wf : hashSym ≠ [] ∧ sep ∉ hashSym := by decide
+
+/-- what `validateChannel` computes on a well-formed request channel, with the string
+handling (trim, split, trailing "#") done -/
+theorem validate_unfold (k : Key) (rp : List Bytes) (rw : Bool) (ch : Channel)
+    (hch : ch.channel = chanOf rp rw) (hrw : ∀ p ∈ rp, levelWf p) (hrne : rp ≠ [])
+    (hrh : rw = false → rp.getLast? ≠ some hashSym) (hP : k.targetPath ≠ 0) :
+    k.validateChannel ch =
+      (if rp.length < (if maxDepthOf k.targetPath 23 == 0 then rp.length else maxDepthOf k.targetPath 23) ||
+          (bitSet k.targetPath 23 && (rw || rp.length != (if maxDepthOf k.targetPath 23 == 0 then rp.length else maxDepthOf k.targetPath 23)))
+       then false else
+       match maskParts k.targetPath rp 0 with
+       | none => false
+       | some masked => Hash.hashOf (joinSlash (masked.take (if maxDepthOf k.targetPath 23 == 0 then rp.length else maxDepthOf k.targetPath 23))) == k.target) := by
+  have hwf0 : ∀ p ∈ rp ++ (if rw then [hashSym] else []), p ≠ [] ∧ sep ∉ p := by
+    intro p hp
+    rcases List.mem_append.1 hp with hp | hp
+    · exact hrw p hp
+    · cases rw
+      · simp at hp
+      · simp only [if_true, List.mem_singleton] at hp; subst hp; exact hashSym_wf
+  have hne0 : rp ++ (if rw then [hashSym] else []) ≠ [] := by simp [hrne]
+  have hA : (chanOf rp rw).isEmpty = false := by simp [chanOf]
+  have hB : (chanOf rp rw).getLast? = some sep := by simp [chanOf]
+  have hC : (chanOf rp rw).dropLast = joinSlash (rp ++ (if rw then [hashSym] else [])) := by
+    simp [chanOf]
+  have hD := splitSlash_joinSlash _ hne0 (fun p hp => (hwf0 p hp).2)
+  have hE : ((rp ++ (if rw then [hashSym] else [])).getLast? == some hashSym) = rw := by
+    cases rw
+    · simp only [Bool.false_eq_true, if_false, List.append_nil]
+      simpa using hrh rfl
+    · simp
+  have hF : (if rw = true then (rp ++ (if rw then [hashSym] else [])).dropLast else rp ++ (if rw then [hashSym] else [])) = rp := by
+    cases rw <;> simp
+  have hP' : (k.targetPath == 0) = false := by simpa using hP
+  unfold Key.validateChannel
+  simp only [hch, hA, hB, hC, hD, hE, hF, hP', beq_self_eq_true, if_true, Bool.false_eq_true, if_false]
+  rfl
+
+theorem getD_allplus (tp : List Bytes) (h : ∀ p ∈ tp, p = plus) (j : Nat) : tp.getD j plus = plus := by
+  rw [List.getD_eq_getElem?_getD]
+  cases hj : tp[j]? with
+  | none => rfl
+  | some x => exact h x (List.mem_of_getElem? hj)
+
+theorem litAt_eq_bitSet (P j : Nat) (h : j ≤ 22) : bitSet P (22 - j) = litAt P j := by
+  simp [litAt, h]
+
+theorem bitSet_zero (i : Nat) : bitSet 0 i = false := by simp [bitSet]
+
+theorem replicate_eq_of_all (tp : List Bytes) (h : ∀ p ∈ tp, p = plus) :
+    List.replicate tp.length plus = tp := by
+  induction tp with
+  | nil => rfl
+  | cons t ts ih =>
+    rw [List.length_cons, List.replicate_succ, ih (fun p hp => h p (List.mem_cons_of_mem _ hp)),
+      h t (by simp)]
+
+/-- `validate_covers` in a sharper form: the non-collision hypotheses speak only of the one pair of
+strings the code actually hashes and compares (the masked request cut to the target's depth
+against the target), and a last request level "#" is excluded only when `rw = false`. -/
+theorem validate_covers_gen (k : Key) (tp : List Bytes) (tw : Bool) (rp : List Bytes) (rw : Bool) (ch : Channel)
+    (hpath : k.targetPath = pathOf tp tw) (hhash : k.target = Hash.hashOf (joinSlash tp))
+    (hch : ch.channel = chanOf rp rw)
+    (htw : ∀ p ∈ tp, levelWf p) (hrw : ∀ p ∈ rp, levelWf p) (hrne : rp ≠ [])
+    (hlen : tp.length ≤ 23) (hnh : hashSym ∉ tp)
+    (hsup : tp ≠ [] ∧ (tp.getLast? ≠ some plus ∨ (tw = false ∧ ∀ p ∈ tp, p = plus)))
+    (hcol : ∀ m : List Bytes, maskParts (pathOf tp tw) rp 0 = some m →
+              (∀ p ∈ m.take tp.length, sep ∉ p) → (m.take tp.length).length = tp.length →
+              Hash.hashOf (joinSlash (m.take tp.length)) = Hash.hashOf (joinSlash tp) →
+              joinSlash (m.take tp.length) = joinSlash tp)
+    (hrh : rw = false → rp.getLast? ≠ some hashSym)
+    (hcolp : (tw = false ∧ ∀ p ∈ tp, p = plus) →
+              Hash.hashOf (joinSlash (List.replicate rp.length plus)) = Hash.hashOf (joinSlash tp) →
+              rp.length = tp.length) :
+    k.validateChannel ch = coversParts tp tw rp rw := by
+  obtain ⟨htne, hsup⟩ := hsup
+  have hL1 : 1 ≤ tp.length := by
+    cases tp with
+    | nil => exact absurd rfl htne
+    | cons _ _ => simp
+  have hlitAt := pathOf_litAt tp tw hlen
+  have hb23 := pathOf_bit23 tp tw hlen
+  have hplus_sep : sep ∉ plus := by decide
+  rcases hsup with hlast | ⟨htwf, hall⟩
+  · -- the last level of the target is a literal
+    have hlastlit : lit (tp.getD (tp.length - 1) plus) = true := by
+      have hl : tp.getLast? = some (tp.getD (tp.length - 1) plus) := by
+        rw [List.getLast?_eq_getElem?, List.getD_eq_getElem?_getD,
+          List.getElem?_eq_getElem (by omega)]; rfl
+      have hmem : tp.getD (tp.length - 1) plus ∈ tp := List.mem_of_getLast? hl
+      unfold lit
+      simp only [Bool.and_eq_true, bne_iff_ne, ne_eq]
+      refine ⟨fun h => hlast (by rw [hl, h]), fun h => hnh (h ▸ hmem)⟩
+    have hbit : bitSet (pathOf tp tw) (22 - (tp.length - 1)) = true := by
+      rw [litAt_eq_bitSet _ _ (by omega), hlitAt]; exact hlastlit
+    have hP : k.targetPath ≠ 0 := by
+      intro h0
+      rw [← hpath, h0, bitSet_zero] at hbit
+      exact Bool.noConfusion hbit
+    have hmd : maxDepthOf (pathOf tp tw) 23 = tp.length := by
+      apply maxDepthOf_last _ _ _ hL1 hlen (by omega) hbit
+      intro j hj1 hj2
+      rw [litAt_eq_bitSet _ _ (by omega), hlitAt,
+        List.getD_eq_getElem?_getD, List.getElem?_eq_none (by omega)]
+      exact lit_plus
+    rw [validate_unfold k rp rw ch hch hrw hrne hrh hP, hpath, hmd, hb23, hhash]
+    have hne0 : (tp.length == 0) = false := by simp; omega
+    simp only [hne0, Bool.false_eq_true, if_false]
+    obtain ⟨hm1, hm2⟩ := mask_spec (pathOf tp tw) rp tp 0 (fun j => by rw [Nat.zero_add]; exact hlitAt j) hnh
+    unfold coversParts
+    by_cases hlt : rp.length < tp.length
+    · have hlo : levelsOk tp rp = false := by
+        cases h : levelsOk tp rp with
+        | false => rfl
+        | true => have := levelsOk_length _ _ h; omega
+      simp [hlt, hlo]
+    · have hge : tp.length ≤ rp.length := by omega
+      have hX : ∀ m, maskParts (pathOf tp tw) rp 0 = some m →
+          (Hash.hashOf (joinSlash (m.take tp.length)) == Hash.hashOf (joinSlash tp)) = levelsOk tp rp := by
+        intro m hm
+        obtain ⟨hml, hmem, htake⟩ := hm2 m hm
+        have htake := htake hge
+        have hsepm : ∀ p ∈ m.take tp.length, sep ∉ p := by
+          intro p hp
+          rcases hmem p (List.mem_of_mem_take hp) with h | h
+          · rw [h]; exact hplus_sep
+          · exact (hrw p h).2
+        have hlenm : (m.take tp.length).length = tp.length := by
+          rw [List.length_take]; omega
+        have hnem : m.take tp.length ≠ [] := by
+          intro h; rw [h] at hlenm; simp at hlenm; omega
+        cases hlo : levelsOk tp rp with
+        | true =>
+          rw [htake.2 hlo]; simp
+        | false =>
+          simp only [beq_eq_false_iff_ne, ne_eq]
+          intro hh
+          have hj := hcol m hm hsepm hlenm hh
+          have := joinSlash_injective _ _ hsepm (fun p hp => (htw p hp).2) hnem htne hj
+          rw [htake.1 this] at hlo
+          exact Bool.noConfusion hlo
+      cases hm : maskParts (pathOf tp tw) rp 0 with
+      | none =>
+        have hlo := hm1 hm
+        cases tw <;> cases rw <;> simp [hlo]
+      | some m =>
+        have hx := hX m hm
+        simp only [hx]
+        cases tw
+        · -- exact target
+          by_cases heq : rp.length = tp.length
+          · cases rw <;> simp [heq]
+          · cases rw <;> simp [hlt, heq]
+        · simp [hlt, hge]
+  · -- an exact target made of "+" levels only
+    subst htwf
+    have hlitF : ∀ j, litAt (pathOf tp false) j = false := by
+      intro j; rw [hlitAt, getD_allplus tp hall]; exact lit_plus
+    have hP : k.targetPath ≠ 0 := by
+      intro h0
+      rw [← hpath, h0, bitSet_zero] at hb23
+      exact Bool.noConfusion hb23
+    have hmd : maxDepthOf (pathOf tp false) 23 = 0 := by
+      apply maxDepthOf_zero
+      intro j hj
+      rw [litAt_eq_bitSet _ _ (by omega)]; exact hlitF j
+    rw [validate_unfold k rp rw ch hch hrw hrne hrh hP, hpath, hmd, hb23, hhash,
+      mask_allplus _ rp 0 (fun j => hlitF _)]
+    unfold coversParts
+    simp only [beq_self_eq_true, if_true, Nat.lt_irrefl, decide_false, Bool.false_or, Bool.not_false,
+      Bool.true_and, bne_self_eq_false, Bool.or_false, List.take_replicate, Nat.min_self,
+      Bool.false_eq_true, if_false]
+    cases rw
+    · simp only [Bool.false_eq_true, if_false, Bool.not_false, Bool.true_and]
+      by_cases heq : rp.length = tp.length
+      · rw [heq, replicate_eq_of_all tp hall, levelsOk_allplus tp rp hall (by omega)]
+        simp
+      · have : Hash.hashOf (joinSlash (List.replicate rp.length plus)) ≠ Hash.hashOf (joinSlash tp) :=
+          fun h => heq (hcolp ⟨rfl, hall⟩ h)
+        have h1 : (Hash.hashOf (joinSlash (List.replicate rp.length plus)) == Hash.hashOf (joinSlash tp)) = false := by
+          rw [beq_eq_false_iff_ne]; exact this
+        have h2 : (rp.length == tp.length) = false := by
+          rw [beq_eq_false_iff_ne]; exact heq
+        rw [h1, h2]; rfl
+    · rfl
+
+/-! ### SetTarget -/
+
+theorem setAt_length (k : Key) (i : Nat) (v : Bytes) (h : i + v.length ≤ k.length) :
+    (k.setAt i v).length = k.length := by
+  unfold Key.setAt
+  simp only [List.length_append, List.length_take, List.length_drop]
+  omega
+
+theorem setAt_b_out (k : Key) (i : Nat) (v : Bytes) (j : Nat) (h : i + v.length ≤ k.length)
+    (hj : j < i ∨ i + v.length ≤ j) : (k.setAt i v).b j = k.b j := by
+  unfold Key.b Key.setAt
+  simp only [List.getD_eq_getElem?_getD]
+  congr 1
+  have hl : (k.take i ++ v).length = i + v.length := by
+    simp only [List.length_append, List.length_take]; omega
+  rcases hj with hj | hj
+  · rw [List.getElem?_append_left (by rw [hl]; omega), List.getElem?_append_left (by simp; omega),
+      List.getElem?_take_of_lt hj]
+  · rw [List.getElem?_append_right (by rw [hl]; omega), hl, List.getElem?_drop]
+    congr 1; omega
+
+theorem setAt_b_in (k : Key) (i : Nat) (v : Bytes) (j : Nat) (h : i ≤ k.length)
+    (hj1 : i ≤ j) (hj2 : j < i + v.length) : (k.setAt i v).b j = v.getD (j - i) 0 := by
+  unfold Key.b Key.setAt
+  simp only [List.getD_eq_getElem?_getD]
+  congr 1
+  have hl : (k.take i).length = i := by simp only [List.length_take]; omega
+  rw [List.append_assoc, List.getElem?_append_right (by rw [hl]; omega), hl,
+    List.getElem?_append_left (by omega)]
+
+theorem setTarget_eq (k : Key) (tp : List Bytes) (tw : Bool)
+    (hwf : ∀ p ∈ tp, levelWf p) (hne : tp ≠ [] ∨ tw = true) (hlen : tp.length ≤ 23) (hnh : hashSym ∉ tp) :
+    k.setTarget (chanOf tp tw) =
+      .ok ((k.setAt 12 [UInt8.ofNat (pathOf tp tw / 65536), UInt8.ofNat (pathOf tp tw / 256),
+        UInt8.ofNat (pathOf tp tw)]).setAt 16 (putBe32 (Hash.hashOf (joinSlash tp)))) := by
+  have hwf0 : ∀ p ∈ tp ++ (if tw then [hashSym] else []), p ≠ [] ∧ sep ∉ p := by
+    intro p hp
+    rcases List.mem_append.1 hp with hp | hp
+    · exact hwf p hp
+    · cases tw
+      · simp at hp
+      · simp only [if_true, List.mem_singleton] at hp; subst hp; decide
+  have hne0 : tp ++ (if tw then [hashSym] else []) ≠ [] := by
+    rcases hne with h | h
+    · simp [h]
+    · simp [h]
+  have hB : ((chanOf tp tw).getLast? != some sep) = false := by simp [chanOf]
+  have hC : trimRightSlash (chanOf tp tw) = joinSlash (tp ++ (if tw then [hashSym] else [])) :=
+    trimRightSlash_join _ hne0 hwf0
+  have hD := splitSlash_joinSlash _ hne0 (fun p hp => (hwf0 p hp).2)
+  have hE : ((tp ++ (if tw then [hashSym] else [])).getLast? == some hashSym) = tw := by
+    cases tw
+    · simp only [Bool.false_eq_true, if_false, List.append_nil, beq_eq_false_iff_ne, ne_eq]
+      intro h
+      exact hnh (List.mem_of_getLast? h)
+    · simp
+  have hF : (if tw = true then (tp ++ (if tw then [hashSym] else [])).dropLast else tp ++ (if tw then [hashSym] else [])) = tp := by
+    cases tw <;> simp
+  have hG : ¬ (tp.length > 23) := by omega
+  unfold Key.setTarget
+  simp only [hB, hC, hD, hE, hF, hG, Bool.false_eq_true, if_false]
+  rfl
+
+theorem pathOf_lt (tp : List Bytes) (tw : Bool) (hlen : tp.length ≤ 23) : pathOf tp tw < 16777216 := by
+  obtain ⟨hlt, -⟩ := bitPathOf_spec tp 0 (by omega)
+  unfold pathOf
+  simp only [Nat.sub_zero] at hlt
+  split <;> omega
+
 /-- `SetTarget` writes the bit path and the hash of the joined levels (and nothing else) -/
 theorem setTarget_fields (k : Key) (hk : k.length = 24) (tp : List Bytes) (tw : Bool)
     (hwf : ∀ p ∈ tp, levelWf p) (hne : tp ≠ [] ∨ tw = true) (hlen : tp.length ≤ 23) (hnh : hashSym ∉ tp) :
     ∃ k', k.setTarget (chanOf tp tw) = .ok k' ∧ k'.targetPath = pathOf tp tw ∧
       k'.target = Hash.hashOf (joinSlash tp) ∧ k'.length = 24 ∧
       (∀ i, i < 12 ∨ i = 15 ∨ 20 ≤ i → k'.b i = k.b i) := by
-  sorry
-
-/-- splitting the joined levels gives the levels back -/
-theorem splitSlash_joinSlash (ps : List Bytes) (hne : ps ≠ []) (hwf : ∀ p ∈ ps, sep ∉ p) :
-    splitSlash (joinSlash ps) = ps := by
-  sorry
-
-/-- joining is injective on '/'-free levels -/
-theorem joinSlash_injective (a b : List Bytes) (ha : ∀ p ∈ a, sep ∉ p) (hb : ∀ p ∈ b, sep ∉ p)
-    (hna : a ≠ []) (hnb : b ≠ []) (h : joinSlash a = joinSlash b) : a = b := by
-  sorry
-
-/-- The key "#/" (hash of the empty string, zero bit path) covers every channel. -/
-theorem validate_hash_all (k : Key) (hp : k.targetPath = 0) (ht : k.target = 1325880984) (ch : Channel)
-    (hc : ch.channel ≠ []) : k.validateChannel ch = true := by
-  sorry
+  have hP := pathOf_lt tp tw hlen
+  have hl3 : ([UInt8.ofNat (pathOf tp tw / 65536), UInt8.ofNat (pathOf tp tw / 256),
+      UInt8.ofNat (pathOf tp tw)] : Bytes).length = 3 := rfl
+  have hl4 : (putBe32 (Hash.hashOf (joinSlash tp))).length = 4 := rfl
+  have hk1 := setAt_length k 12 _ (by rw [hl3, hk]; omega : 12 + ([UInt8.ofNat (pathOf tp tw / 65536),
+      UInt8.ofNat (pathOf tp tw / 256), UInt8.ofNat (pathOf tp tw)] : Bytes).length ≤ k.length)
+  rw [hk] at hk1
+  refine ⟨_, setTarget_eq k tp tw hwf hne hlen hnh, ?_, ?_, ?_, ?_⟩
+  · unfold Key.targetPath
+    rw [setAt_b_out _ 16 _ 12 (by rw [hl4, hk1]; omega) (Or.inl (by omega)),
+      setAt_b_out _ 16 _ 13 (by rw [hl4, hk1]; omega) (Or.inl (by omega)),
+      setAt_b_out _ 16 _ 14 (by rw [hl4, hk1]; omega) (Or.inl (by omega)),
+      setAt_b_in _ 12 _ 12 (by omega) (by omega) (by rw [hl3]; omega),
+      setAt_b_in _ 12 _ 13 (by omega) (by omega) (by rw [hl3]; omega),
+      setAt_b_in _ 12 _ 14 (by omega) (by omega) (by rw [hl3]; omega)]
+    simp only [Nat.sub_self, List.getD_cons_zero, List.getD_cons_succ, UInt8.toNat_ofNat']
+    omega
+  · unfold Key.target
+    rw [setAt_b_in _ 16 _ 16 (by omega) (by omega) (by rw [hl4]; omega),
+      setAt_b_in _ 16 _ 17 (by omega) (by omega) (by rw [hl4]; omega),
+      setAt_b_in _ 16 _ 18 (by omega) (by omega) (by rw [hl4]; omega),
+      setAt_b_in _ 16 _ 19 (by omega) (by omega) (by rw [hl4]; omega)]
+    exact be32_putBe32 _
+  · rw [setAt_length _ 16 _ (by rw [hl4, hk1]; omega), hk1]
+  · intro i hi
+    rw [setAt_b_out _ 16 _ i (by rw [hl4, hk1]; omega) (by rw [hl4]; omega),
+      setAt_b_out _ 12 _ i (by rw [hl3, hk]; omega) (by rw [hl3]; omega)]
 
 /-- ValidateChannel decides `covers`, on the targets the key format can express, provided the
 one pair of strings whose 32-bit hashes it compares does not collide.
-`tp`/`tw`: the levels of the target and whether it ends in '#'; `rp`/`rw`: same for the request. -/
+`tp`/`tw`: the levels of the target and whether it ends in '#'; `rp`/`rw`: same for the request.
+
+Two hypotheses were added to the statement as first written:
+* `hrh`: the last level of the request is not itself "#" (the code cannot tell such a level from
+  the trailing wildcard marker; without it the statement is false: target `+/` (exact), request
+  levels `["#"]`, `rw = false` is refused by the code but covered by the spec);
+* `hcolp`: for an exact target made of "+" levels only the code has no depth to compare (no
+  literal bit is set, so `maxDepth` is the request's own depth) and the depth check is left to the
+  hash comparison of "+/+/…/+" (request depth) against the target; `hcol` says nothing about
+  strings of another depth, so that pair is assumed not to collide either. -/
 theorem validate_covers (k : Key) (tp : List Bytes) (tw : Bool) (rp : List Bytes) (rw : Bool) (ch : Channel)
     (hpath : k.targetPath = pathOf tp tw) (hhash : k.target = Hash.hashOf (joinSlash tp))
     (hch : ch.channel = chanOf rp rw)
@@ -90,8 +752,13 @@ theorem validate_covers (k : Key) (tp : List Bytes) (tw : Bool) (rp : List Bytes
     (hlen : tp.length ≤ 23) (hnh : hashSym ∉ tp)
     (hsup : tp ≠ [] ∧ (tp.getLast? ≠ some plus ∨ (tw = false ∧ ∀ p ∈ tp, p = plus)))
     (hcol : ∀ m : List Bytes, (∀ p ∈ m, sep ∉ p) → m.length = tp.length →
-              Hash.hashOf (joinSlash m) = Hash.hashOf (joinSlash tp) → joinSlash m = joinSlash tp) :
-    k.validateChannel ch = coversParts tp tw rp rw := by
-  sorry
+              Hash.hashOf (joinSlash m) = Hash.hashOf (joinSlash tp) → joinSlash m = joinSlash tp)
+    (hrh : rp.getLast? ≠ some hashSym)
+    (hcolp : (tw = false ∧ ∀ p ∈ tp, p = plus) →
+              Hash.hashOf (joinSlash (List.replicate rp.length plus)) = Hash.hashOf (joinSlash tp) →
+              rp.length = tp.length) :
+    k.validateChannel ch = coversParts tp tw rp rw :=
+  validate_covers_gen k tp tw rp rw ch hpath hhash hch htw hrw hrne hlen hnh hsup
+    (fun _ _ h1 h2 hh => hcol _ h1 h2 hh) (fun _ => hrh) hcolp
 
 end Emitter.Security
